@@ -62,6 +62,8 @@ struct Plan {
     retain_flush: bool,
     /// forget path with a gate: the last queue handle is dropped BEFORE the writer is released
     drop_before_release: bool,
+    /// the stream answers runs of 5 consecutive entries (out of every 12) with an I/O error
+    err_runs: bool,
     seed: u64,
 }
 
@@ -260,6 +262,10 @@ fn history(plan: &Plan, rep: &Report) -> Option<u64> {
 fn inner(plan: &Plan, phase: &AtomicU64) -> Outcome {
     let sh = StreamShared::new(plan.seed);
     sh.delay_per_mille.store(plan.delay_pm, Ordering::Relaxed);
+    if plan.err_runs {
+        let n = AtomicU64::new(0);
+        sh.set_script(move |_| if (4..9).contains(&(n.fetch_add(1, Ordering::Relaxed) % 12)) { vcommon::stream::Outcome::Io } else { vcommon::stream::Outcome::Ok });
+    }
     let total = (plan.clients * plan.per + plan.racers * 4000 + plan.backlog + plan.after + 16) as usize;
     let mut builder = BackgroundQueueBuilder::new()
         .capacity(total.max(4)) // never overflows
@@ -509,7 +515,70 @@ fn gen_plan(rng: &mut Rng, lane: u64, thorough: bool) -> Plan {
         unwinding: rng.below(5) == 0,
         retain_flush: rng.below(4) == 0,
         drop_before_release: rng.bool(),
+        err_runs: rng.below(4) == 0,
         seed: rng.next_u64(),
+    }
+}
+
+/// The writer is held INSIDE the metrics recorder (its once-per-interval report of idle time and
+/// queue length), i.e. between its periodic flush and its check of the shutdown flag; an entry is
+/// appended, then the join handle is dropped, then the writer is released: the entry was appended
+/// before the drop began and must be written.
+fn held_in_recorder_scenarios(rep: &Report) {
+    for (round, (boxed, forget)) in [(false, false), (true, false), (false, true), (true, true)].into_iter().enumerate() {
+        rep.eval();
+        let sh = StreamShared::new(round as u64);
+        let counts = Arc::new(checks::recorder::Counts::default());
+        let builder = BackgroundQueueBuilder::new()
+            .capacity(64)
+            .flush_interval(Duration::from_millis(2))
+            .metrics_recorder_local::<dyn metrics::Recorder, _>(checks::recorder::CountingRecorder(counts.clone()));
+        let (q, handle) = if boxed {
+            let (q, h) = builder.build_boxed(sh.stream());
+            (Q::Boxed(q), h)
+        } else {
+            let (q, h) = builder.build::<IdEntry>(sh.stream());
+            (Q::Typed(q), h)
+        };
+        for s in 0..3 {
+            q.append(IdEntry::new(0, s));
+        }
+        let _ = progress_wait(|| sh.consumed_ids.load(Ordering::SeqCst) == 3, default_stall());
+        counts.hold_histograms.store(true, Ordering::SeqCst);
+        let held = progress_wait(|| counts.held.load(Ordering::SeqCst) > 0, Duration::from_secs(10));
+        if !held {
+            counts.hold_histograms.store(false, Ordering::SeqCst);
+            rep.inconclusive("held-in-recorder scenario: the writer never reported to the recorder");
+            handle.forget();
+            continue;
+        }
+        q.append(IdEntry::new(0, 99));
+        let dropper = if forget {
+            handle.forget();
+            let t = std::thread::spawn(move || drop(q));
+            t
+        } else {
+            let t = std::thread::spawn(move || {
+                handle.shut_down();
+                drop(q);
+            });
+            t
+        };
+        std::thread::sleep(Duration::from_millis(20));
+        counts.hold_histograms.store(false, Ordering::SeqCst);
+        let _ = dropper.join();
+        let closed = progress_wait(|| sh.is_dropped(), default_stall());
+        let ids: Vec<u32> = sh.log().iter().filter_map(|e| e.id()).map(id_seq).collect();
+        if !closed || ids != vec![0, 1, 2, 99] {
+            rep.violation(
+                if closed { "entry-appended-before-shutdown-not-written" } else { "forgotten-queue-never-shut-down" },
+                json!({"what": "writer held inside the metrics recorder (between its periodic flush and its shutdown check); entry 99 appended; then the handle dropped (or forgotten + last queue handle dropped); then the writer released",
+                       "boxed": boxed, "forget": forget, "written": ids, "expected": [0, 1, 2, 99], "stream_closed": closed}),
+            );
+            return;
+        }
+        rep.count("held_in_recorder_scenarios", 1);
+        rep.distinct(Fnv::new().str("held-in-recorder").u64(round as u64).finish());
     }
 }
 
@@ -639,6 +708,9 @@ fn native_main(args: &Args, rep: &Report) {
             });
         }
     });
+    if rep.violation_count() == 0 {
+        held_in_recorder_scenarios(rep);
+    }
     #[cfg(metrique_verif)]
     if rep.violation_count() == 0 {
         sustained_load_shutdown(rep);
@@ -670,6 +742,7 @@ fn tiny_main(args: &Args, rep: &Report) {
         unwinding: v % 3 == 1,
         retain_flush: v % 2 == 1,
         drop_before_release: v % 4 >= 2,
+        err_runs: v % 3 == 2,
         seed: args.seed + v,
     };
     rep.eval();
